@@ -1,19 +1,26 @@
 //! Stage `render`: `ConstraintAutomaton::dot_string()` against the model's `Render.dotTxt`.
-//! Small string / matrix pattern sets (1-5 short patterns, shared prefixes, duplicates, so that
-//! fuse / make_det / merge happen), Default / Never / Custom heuristics, no hosts. Record:
+//! Small string / matrix / port-graph pattern sets (1-5 short patterns, shared prefixes,
+//! duplicates, so that fuse / make_det / merge happen), Default / Never / Custom heuristics, no
+//! hosts. Record:
 //!
-//! `RND S|M <patterns> <fallback-fail> <heuristic> => ok <constraint vectors> <event log>
+//! `RND S|M|G <patterns> <fallback-fail> <heuristic> => ok <constraint vectors> <event log>
 //!  <automaton dump> <dot_string() as a length-prefixed list of code points>`
-//! (or `=> ERR`, `=> P <tag>`), with the encodings of the E2E records.
+//! (or `=> ERR`, `=> P <tag>`), with the encodings of the E2E records (`G`: patterns as in the
+//! `E2E G` record, i.e. graph + optional root; keys, predicates, constraints by `pg::enc_*`).
 use crate::e2e::{
     enc_charvars, enc_dump, enc_events, enc_matpat, gen_matrix_set, gen_string_set, random_heur,
     Heur, MatPat,
+};
+use crate::pg::{
+    build_pgpatterns, enc_pgcons, enc_pgpats, gen_pg_set, key_string, random_connected, GDesc,
+    PgPat,
 };
 use crate::proto::{catch, Line};
 use crate::rng::Rng;
 use crate::tree::{enc_mcons, enc_scons};
 use portmatching::indexing::DataKey;
 use portmatching::matrix::{MatrixPattern, MatrixPatternPosition, MatrixString};
+use portmatching::portgraph::{PGPattern, PGPredicate};
 use portmatching::string::{CharVar, CharacterPredicate, StringPattern};
 use portmatching::verif::take_log;
 use portmatching::{
@@ -29,8 +36,27 @@ fn sub(f: impl FnOnce(&mut Line)) -> String {
 
 /// Build the matcher under the event log, dump it, render it; `l` holds the encoded inputs.
 fn render_generic<PT, P, D>(
+    l: Line,
+    patterns: Vec<PT>,
+    heur: &Heur,
+    enc_cons: impl Fn(&mut Line, &Constraint<DataKey<D>, P>) + Copy,
+    enc_key: impl Fn(&DataKey<D>) -> String,
+) where
+    D: IndexedData,
+    D::IndexingScheme: Default,
+    DataKey<D>: 'static,
+    P: Predicate<D> + ToConstraintsTree<DataKey<D>> + std::fmt::Debug + 'static,
+    PT: Pattern<Key = DataKey<D>, Predicate = P> + Clone + std::fmt::Debug,
+    Constraint<DataKey<D>, P>: Eq + Clone + Hash,
+{
+    render_generic_fb::<PT, P, D>(l, patterns, PatternFallback::Fail, heur, enc_cons, enc_key)
+}
+
+/// The same with the fallback mode as a parameter (the caller has encoded it into `l`).
+fn render_generic_fb<PT, P, D>(
     mut l: Line,
     patterns: Vec<PT>,
+    fallback: PatternFallback,
     heur: &Heur,
     enc_cons: impl Fn(&mut Line, &Constraint<DataKey<D>, P>) + Copy,
     enc_key: impl Fn(&DataKey<D>) -> String,
@@ -49,7 +75,7 @@ fn render_generic<PT, P, D>(
         let m: Result<ManyMatcher<PT, DataKey<D>, P, D::IndexingScheme>, _> =
             ManyMatcher::try_from_patterns_with_det_heuristic(
                 patterns.clone(),
-                PatternFallback::Fail,
+                fallback,
                 h,
             );
         let evs = take_log();
@@ -116,6 +142,67 @@ pub fn matrix_case(pats: &[MatPat], heur: &Heur) {
             format!("{} {}", k.0, k.1)
         },
     );
+}
+
+/// Port graphs: the pattern-set part as in the `E2E G` record, the rest as for `S` / `M`.
+pub fn pg_case(pats: &[PgPat], fallback_fail: bool, heur: &Heur) {
+    let mut l = Line::new("RND");
+    l.tok("G");
+    enc_pgpats(&mut l, pats);
+    l.tok(fallback_fail as usize);
+    heur.encode(&mut l);
+    let patterns = build_pgpatterns(pats);
+    render_generic_fb::<PGPattern<portgraph::PortGraph>, PGPredicate, portgraph::PortGraph>(
+        l,
+        patterns,
+        if fallback_fail { PatternFallback::Fail } else { PatternFallback::Skip },
+        heur,
+        enc_pgcons,
+        key_string,
+    );
+}
+
+/// 1-3 port-graph patterns of 1-4 nodes: `gen_pg_set` cut down, or a set in which later patterns
+/// are an earlier one re-rooted, duplicated or grown by a node (shared constraint prefixes, so
+/// that fuse / make_det / merge happen and states accept several patterns).
+fn small_pg_set(rng: &mut Rng, allow_noroot: bool) -> Vec<PgPat> {
+    let np = rng.range(1, 3);
+    let mut pats: Vec<PgPat> = vec![];
+    for _ in 0..np {
+        if !pats.is_empty() && rng.chance(3, 5) {
+            let (g, r) = rng.pick(&pats).clone();
+            match rng.below(3) {
+                0 => pats.push((g, r)),
+                1 => {
+                    let live = g.live();
+                    let root = *rng.pick(&live);
+                    pats.push((g, Some(root)));
+                }
+                _ => {
+                    // one more node, linked from a fresh out port of a live node
+                    let mut g2: GDesc = g.clone();
+                    if g2.live().len() < 4 {
+                        let a = *rng.pick(&g2.live());
+                        let (i, o) = g2.nodes[a].unwrap();
+                        g2.nodes[a] = Some((i, o + 1));
+                        g2.nodes.push(Some((1, rng.below(2))));
+                        let b = g2.nodes.len() - 1;
+                        g2.links.push(((a, o), (b, 0)));
+                    }
+                    pats.push((g2, r));
+                }
+            }
+            continue;
+        }
+        let n = if rng.chance(1, 6) { 1 } else { rng.range(2, 4) };
+        let holes = rng.chance(1, 5);
+        let maxports = rng.range(1, 3);
+        let g = random_connected(rng, n, maxports, holes);
+        let live = g.live();
+        let root = if allow_noroot && rng.chance(1, 10) { None } else { Some(*rng.pick(&live)) };
+        pats.push((g, root));
+    }
+    pats
 }
 
 /// Literal alphabets: plain, and one exercising petgraph's escaping (`"`, `\`, newline), the
@@ -262,5 +349,54 @@ pub fn run(seed: u64, thorough: bool) {
             _ => small_matrix_set(&mut rng, &ODD),
         };
         matrix_case(&pats, &heur);
+    }
+    // port graphs (own generator stream: the S / M records above are unchanged)
+    let mut rng = Rng::new(seed, "render.pg");
+    let single = |i, o| GDesc { nodes: vec![Some((i, o))], links: vec![] };
+    let loop1 = GDesc { nodes: vec![Some((1, 1))], links: vec![((0, 0), (0, 0))] };
+    let path3 = GDesc {
+        nodes: vec![Some((0, 1)), Some((1, 1)), Some((1, 0))],
+        links: vec![((0, 0), (1, 0)), ((1, 0), (2, 0))],
+    };
+    // two-digit port offsets and path lengths do not occur in random small patterns
+    let wide = GDesc {
+        nodes: vec![Some((0, 12)), Some((11, 0))],
+        links: vec![((0, 11), (1, 10)), ((0, 3), (1, 0))],
+    };
+    let f3b = GDesc {
+        nodes: vec![Some((2, 0)), Some((2, 1)), Some((1, 2)), Some((0, 2))],
+        links: vec![((1, 0), (0, 0)), ((2, 0), (0, 1)), ((3, 0), (1, 0))],
+    };
+    let fixed_g: Vec<Vec<PgPat>> = vec![
+        vec![],
+        vec![(single(0, 0), Some(0))],
+        vec![(single(0, 1), Some(0)), (loop1.clone(), Some(0))],
+        vec![(path3.clone(), Some(0)), (path3.clone(), Some(1)), (path3.clone(), Some(2))],
+        vec![(wide.clone(), Some(0)), (wide, Some(1))],
+        vec![(f3b.clone(), Some(3)), (f3b, Some(0))],
+        vec![(path3.clone(), None)],
+        // six / five patterns accepted at one state: the `matches` map in hash-iteration order
+        vec![(single(0, 1), Some(0)); 6],
+        vec![(path3.clone(), Some(1)); 5],
+    ];
+    for pats in &fixed_g {
+        for h in [Heur::Default, Heur::Never] {
+            pg_case(pats, true, &h);
+        }
+    }
+    pg_case(&[(path3.clone(), None), (path3, Some(0))], false, &Heur::Default);
+    for i in 0..n {
+        let heur = random_heur(&mut rng);
+        // one case in eight under PatternFallback::Skip with rootless (non-convertible) patterns
+        let skip = i % 8 == 7;
+        let pats = match i % 3 {
+            0 => {
+                let mut ps = gen_pg_set(&mut rng, false, skip);
+                ps.truncate(3);
+                ps
+            }
+            _ => small_pg_set(&mut rng, skip),
+        };
+        pg_case(&pats, !skip, &heur);
     }
 }
